@@ -14,8 +14,12 @@ const AW: &str = "aw = #[(@-> 'int), 'int] { =[p, s], w = [s, 0] spin, r = !p, [
 const BY: &str = "by = #['int, 'int] { =[n, s], w = [s, 0] spin, [n, 5] __integer_add__ }";
 const SNDV: &str = "sndv = #[(@'int), 'int, 'int, 'int] { | =[to, base, 0, s] => 0 | =[to, base, k, s] => { base to, w = [s, 0] spin, [&to, [base, 1] __integer_add__, [k, 1] __integer_subtract__, s] ^ } }";
 const REL: &str = "rel = #(@-> 'int) { =p, ! [p, #'int] }";
-const REL2: &str = "rel2 = #(@-> 'int) { =p, m = ! [p, 0], f = [\"/rel2\" .0, 577, 420] __file_open__, w = [f, 0, 0x010203] __file_write__, d = [f, 0, 8] __file_read__, e = [f, 0, 8] __file_read__, 1 }";
+const REL2: &str = "rel2 = #(@-> 'int) { =p, m = [! [p, 0]], f = [\"/rel2\" .0, 577, 420] __file_open__, w = [f, 0, 0x010203] __file_write__, d = [f, 0, 8] __file_read__, e = [f, 0, 8] __file_read__, 1 }";
 const REL3: &str = "rel3 = #(@-> 'int) { =p, f = [\"/rel3\" .0, 577, 420] __file_open__, w = [f, 0, 0x010203] __file_write__, m = ! [p, #'int { =q, d = [f, 0, 8] __file_read__, Ok }], 1 }";
+/// polls the victim once without blocking, then goes on (and finishes, or waits for a message)
+const POLL: &str = "poll = #[(@-> 'int), 'int] { =[p, s], x = [! [p, 0]], w = [s, 0] spin, 1 }";
+const POLLW: &str = "pollw = #[(@-> 'int), (@'int)] { =[p, gt], x = [! [p, 0]], 1 gt, g = !'int, [g, 1] __integer_add__ }";
+const GATE: &str = "gate = #{ !'int }";
 const SINK: &str = "sink = #{ !#\\File, 5 }";
 
 #[derive(Clone, Copy, Debug, PartialEq)]
@@ -33,6 +37,8 @@ enum Fail {
     InjectedWrite(FaultKind),
     /// a pure builtin called outside its domain (index into EDGE_CALLS)
     Edge(usize),
+    /// a read that returns more bytes than a binary may hold
+    HugeRead,
 }
 
 /// Out-of-domain calls of pure builtins (boundary integers, empty / unaligned / sliced binaries): each
@@ -88,6 +94,7 @@ fn victim_def(f: Fail, spin: u32, receives: bool) -> (String, bool) {
         Fail::FilterSend => ("me = &., ! [#'int { =q, 1 me, Ok }]".to_string(), false),
         Fail::FilterSelect => ("! [#'int { =q, z = ! [5], Ok }]".to_string(), false),
         Fail::Edge(k) => (format!("x = [{}], 0", EDGE_CALLS[k % EDGE_CALLS.len()]), false),
+        Fail::HugeRead => ("f = [\"/huge\" .0, 0, 0] __file_open__, d = [f, 0, 20000000] __file_read__, d __binary_length__".to_string(), true),
     };
     (format!("victim = #'int {{ =n, {pre}w = [{spin}, 0] spin, {op} }}"), io)
 }
@@ -112,7 +119,7 @@ impl Property for C15 {
         "cases: a victim process fails at a generated point (builtin domain errors, missing file, ownership violation, injected backend write error, spawn/send/nested select inside a receive filter) inside a generated system of by-standers, direct and transitive single-source awaiters that await before, during or after the failure, senders to the victim before/after its death, and a multi-source selector (counted, not judged); each scenario runs under V sampled schedule/configuration variants. Non-trivial: >=2 workers, >=1 out-of-order handled message or injected fault, conclusive. Distinct = distinct (scenario shape, interleaving hash) pairs."
     }
     fn required_probes(&self) -> Vec<&'static str> {
-        vec!["awaiter_failed_with_victims_error", "bystander_unaffected", "client_saw_victim_error", "sender_to_dead_unaffected", "repl_session_survived_odd_line", "awaiter_with_effect_in_flight"]
+        vec!["awaiter_failed_with_victims_error", "bystander_unaffected", "client_saw_victim_error", "sender_to_dead_unaffected", "repl_session_survived_odd_line", "awaiter_with_effect_in_flight", "poller_no_longer_awaiting_when_victim_fails", "effect_result_over_binary_limit"]
     }
     fn draw_cfg(&self, rng: &mut Rng, scn: &Scenario) -> crate::world::RunCfg {
         // the failure is the scenario's own; no additional random backend faults
@@ -139,12 +146,19 @@ impl Property for C15 {
             Fail::InjectedWrite(FaultKind::SubmitError),
             Fail::InjectedWrite(FaultKind::CompleteError),
         ];
-        let f = if rng.chance(1, 5) { Fail::Edge(rng.usize(EDGE_CALLS.len())) } else { *rng.pick(&fails) };
+        let f = if rng.chance(1, 5) {
+            Fail::Edge(rng.usize(EDGE_CALLS.len()))
+        } else if rng.chance(1, 60) {
+            // (rare: every run moves 16 MiB through the transport and the event log)
+            Fail::HugeRead
+        } else {
+            *rng.pick(&fails)
+        };
         let filter_kind = matches!(f, Fail::FilterSpawn | Fail::FilterSend | Fail::FilterSelect);
         let receives = !filter_kind && rng.chance(1, 2);
         let vspin = *rng.pick(&[0u32, 0, 5, 20, 60]);
         let (vdef, io) = victim_def(f, vspin, receives);
-        let mut defs: Vec<String> = vec![super::c04::SPIN.into(), AW.into(), BY.into(), SNDV.into(), REL.into(), REL2.into(), REL3.into()];
+        let mut defs: Vec<String> = vec![super::c04::SPIN.into(), AW.into(), BY.into(), SNDV.into(), REL.into(), REL2.into(), REL3.into(), POLL.into(), POLLW.into(), GATE.into()];
         if f == Fail::Ownership {
             defs.push(SINK.into());
         }
@@ -171,6 +185,33 @@ impl Property for C15 {
             expect_val.insert(format!("{vpath}/0"), "5".to_string());
         }
         let needs_msg = receives || filter_kind;
+        // processes that poll the victim once (`! [v, 0]`) while it cannot have failed yet - it waits for
+        // a message that main sends later - and then no longer await it: one finishes before the victim
+        // is released, one is still alive (waiting for its own message) when the victim fails. Neither
+        // awaits the victim at the time of the failure, so both must end with their normal results.
+        let mut pollers = 0;
+        let mut pollw = false;
+        if needs_msg && rng.chance(1, 2) {
+            body.push(format!("pl = [&v, {}] @poll", *rng.pick(&[0u32, 5, 40])));
+            let p = fresh_path(&mut next_child);
+            expect_val.insert(p, "1".to_string());
+            body.push("rpl = !pl".to_string());
+            pollers += 1;
+            if rng.chance(1, 2) {
+                // pw tells a gate process when it has polled; main releases the victim only after the gate
+                // has finished, and wakes pw at the very end
+                body.push("gt = @gate".to_string());
+                let p = fresh_path(&mut next_child);
+                expect_val.insert(p, "1".to_string());
+                body.push("pw = [&v, &gt] @pollw".to_string());
+                let p = fresh_path(&mut next_child);
+                expect_val.insert(p, "42".to_string());
+                body.push("rgt = !gt".to_string());
+                pollw = true;
+                pollers += 1;
+            }
+            h.u64(0x9011 + pollers as u64);
+        }
         // by-standers
         let nby = 1 + rng.usize(3);
         h.u64(nby as u64);
@@ -238,6 +279,10 @@ impl Property for C15 {
         for i in 0..nby {
             body.push(format!("rb{i} = !b{i}"));
         }
+        if pollw {
+            body.push("41 pw".to_string());
+            body.push("rpw = !pw".to_string());
+        }
         // late sends to the (probably dead) victim
         if needs_msg && rng.chance(1, 2) {
             body.push("8 v".to_string());
@@ -290,6 +335,7 @@ impl Property for C15 {
                 "client": client_expect,
                 "relaxed": relaxed_path,
                 "senders": senders,
+                "pollers": pollers,
             }),
             shape: h.0,
             est_len: 100,
@@ -372,14 +418,22 @@ fn repl_session(rng: &mut Rng) -> Scenario {
     let n = rng.range(1, 40);
     let sp = *rng.pick(&[0u32, 30, 200]);
     let mut ops = vec![ClientOp::Line { session: 0, src: format!("{}, {BY}, b0 = [{n}, {sp}] @by, g = #'int {{ [~, 1] __integer_add__ }}, a = 7", super::c04::SPIN) }];
-    let kind = rng.below(4);
+    let kind = rng.below(5);
     let odd = match kind {
         0 => "a =999999, y = 7, z = [y, 1] __integer_add__",
         1 => "5 ^g",
         2 => "a =999999, p = @{ 1 }",
-        _ => "k = 3, a =999999, [u, w] = [k, 0x0102]",
+        3 => "k = 3, a =999999, [u, w] = [k, 0x0102]",
+        // the session polls a process once; the process fails while the session sleeps between lines
+        _ => "vq = @{ m = !'int, [m, 0] __integer_divide__ }, pq = [! [vq, 0]]",
     };
     ops.push(ClientOp::Line { session: 0, src: odd.to_string() });
+    if kind == 4 {
+        ops.push(ClientOp::Line { session: 0, src: "1 vq".to_string() });
+        if rng.chance(1, 2) {
+            ops.push(ClientOp::Line { session: 0, src: format!("w = [{}, 0] spin", *rng.pick(&[5u32, 60, 300])) });
+        }
+    }
     if rng.chance(1, 2) {
         ops.push(ClientOp::Vars { session: 0 });
     }
@@ -429,6 +483,12 @@ pub fn probes_from(scn: &Scenario, r: &RunResult) -> BTreeMap<String, u64> {
     }
     if e["io_awaiters"].as_bool().unwrap_or(false) {
         m.insert("awaiter_with_effect_in_flight".into(), 1);
+    }
+    if e["pollers"].as_u64().unwrap_or(0) > 0 {
+        m.insert("poller_no_longer_awaiting_when_victim_fails".into(), e["pollers"].as_u64().unwrap_or(0));
+    }
+    if scn.family == "c15-HugeRead" {
+        m.insert("effect_result_over_binary_limit".into(), 1);
     }
     if let Some(p) = e["relaxed"].as_str() {
         match r.procs.get(p) {
